@@ -78,12 +78,27 @@ def tags_all(refs):
     return t
 
 
-def compare(name, exp, res, tags):
+def compare(name, exp, res, tags, result_obj=None):
     got = set(res.words(N))
     if exp != got:
         miss, extra = exp - got, got - exp
         w = min(miss or extra, key=len)
         core.report(PROP, name, "missing-word" if miss else "extra-word", {"word": list(w)}, tags)
+        return
+    if result_obj is not None:
+        # second route: the returned grammar's own membership (catches a wrong memo carried into the result)
+        terms = sorted(res.terminals, key=repr)[:2]
+        import itertools
+        for k in range(4):
+            for w in itertools.product(terms, repeat=k):
+                try:
+                    ans = result_obj.contains(list(w))
+                except Exception as e:
+                    core.report(PROP, name, "result-contains-exception:" + type(e).__name__, {"word": list(w)}, tags)
+                    return
+                if bool(ans) != (tuple(w) in exp):
+                    core.report(PROP, name, "result-contains-disagrees", {"word": list(w)}, tags)
+                    return
 
 
 def frame(name, refs, objs, tags):
@@ -104,7 +119,7 @@ def make_post2(name, op):
             core.report(PROP, name, "exception:" + type(exc).__name__, {"msg": str(exc)[:80]}, tags)
             return
         frame(name, st, (self, args[0]), tags)
-        compare(name, op(set(st[0].words(N)), set(st[1].words(N))), ref_of(result), tags)
+        compare(name, op(set(st[0].words(N)), set(st[1].words(N))), ref_of(result), tags, result)
     return post
 
 
@@ -115,7 +130,7 @@ def make_post1(name, op):
             core.report(PROP, name, "exception:" + type(exc).__name__, {"msg": str(exc)[:80]}, tags)
             return
         frame(name, st, (self,), tags)
-        compare(name, op(set(st[0].words(N))), ref_of(result), tags)
+        compare(name, op(set(st[0].words(N))), ref_of(result), tags, result)
     return post
 
 
@@ -136,7 +151,7 @@ def post_subst(st, self, args, kwargs, result, exc):
         for h, b in g.prods:
             prods.append((("s", t, h), tuple(("V", ("s", t, x[1])) if x[0] == "V" else x for x in b)))
     exp = rc.Grammar(prods, ("m", ref.start)).words(N) if ref.start is not None else set()
-    compare("substitute", set(exp), ref_of(result), tags)
+    compare("substitute", set(exp), ref_of(result), tags, result)
 
 
 def install():
@@ -167,7 +182,7 @@ def plan(tier, rng, sl, nslices, stats):
                 b["prods"] = [[0, []]]          # epsilon-only language
             elif r < 0.26:
                 b["prods"] = [[0, [["V", 0], ["T", 0]]]]    # empty language
-        yield {"a": a, "b": b}
+        yield {"a": a, "b": b, "warm": rng.random() < 0.5}
 
 
 def run_case(c, stats):
@@ -181,6 +196,13 @@ def run_case(c, stats):
         nt = bool(ra.words(N)) and bool(rb.words(N))
         for t in tags_all([ra, rb]):
             stats.cls("tag:" + t)
+    if c.get("warm"):
+        # the operands' memo state is part of the case: analyses cached before they are used as operands
+        t0 = gcfg.tval(c["a"], 0)
+        call(A.contains, [t0, t0])
+        call(A.is_finite)
+        call(B.get_nullable_symbols)
+        call(B.contains, [t0])
     call(A.union, B)
     call(A.concatenate, B)
     call(B.concatenate, A)
